@@ -254,7 +254,7 @@ class Report:
                        "rerun": f"VERIF_SEED={SEED} ./check {self.prop} --tier {self.tier}"})
         h = hashlib.sha256(json.dumps(replay, sort_keys=True, default=str).encode()).hexdigest()[:10]
         path = OUT / "replays" / f"{self.prop}-{h}.json"
-        path.parent.mkdir(exist_ok=True)
+        path.parent.mkdir(parents=True, exist_ok=True)
         path.write_text(json.dumps(replay, indent=1, default=str))
         self.violations.append({"what": what, "replay": str(path), "found": found_input})
         tail = "" if found_input else " no-failing-input-found"
@@ -283,6 +283,6 @@ class Report:
             "wall_s": round(time.time() - self.t0, 2),
             "violations": len(self.violations),
         }
-        (OUT / "evidence").mkdir(exist_ok=True)
+        (OUT / "evidence").mkdir(parents=True, exist_ok=True)
         (OUT / "evidence" / f"{self.prop}.json").write_text(json.dumps(ev, indent=1, default=str))
         return 1 if self.violations else 0
